@@ -62,6 +62,14 @@ func (r *Runner) apiFacts(tx *bbolt.Tx, model project.Facts) project.Facts {
 		if l := S.People.GetRelatedEntitiesIdList(tx, rid, schema.FRep); len(l) > 0 {
 			f["backBoss/"+id] = list(l)
 		}
+		if S.Cfg.ChildFeatures && S.Staff.IsEntityPresent(tx, rid) {
+			if l := S.Staff.GetRelatedEntitiesIdList(tx, rid, schema.FChiefOf); len(l) > 0 {
+				f["backChief/"+id] = list(l)
+			}
+			if l := S.Staff.Squads.GetLinks(tx, rid); len(l) > 0 {
+				f["lnkST/"+id] = list(l)
+			}
+		}
 		if l := S.People.Links.GetLinks(tx, rid); len(l) > 0 {
 			f["lnkPT/"+id] = list(l)
 		}
@@ -93,6 +101,14 @@ func (r *Runner) apiFacts(tx *bbolt.Tx, model project.Facts) project.Facts {
 		}
 		if l := S.Teams.Links.GetLinks(tx, rt); len(l) > 0 {
 			f["lnkTP/"+t] = list(l)
+		}
+		if S.Cfg.ChildFeatures {
+			if tm, found, _ := S.Teams.FindById(tx, rt); found && tm != nil && tm.Chief != nil {
+				f["chief/"+t] = tok.Model(*tm.Chief)
+			}
+			if l := S.Teams.Squads.GetLinks(tx, rt); len(l) > 0 {
+				f["lnkTS/"+t] = list(l)
+			}
 		}
 	}
 	// index reads: for every value the model or the entities know
